@@ -22,6 +22,21 @@ Cap rule: P = number of partitions of the board into r connected tanks (canonica
 base.layouts over the h + w line clues (rows first, then columns; default -1; alphabet 0..max(h, w), restricted to
 row clues <= w and column clues <= h), with at most max(1, cap // P) layouts (k >= 1 always); if P x layouts still
 exceeds cap, every ceil(P x layouts / cap)-th partition.
+
+"large" family, descriptor ("large", h, w, level) with level 0 = quick / 1 = thorough (problem dicts carry "family":
+"large"): boards 4x4, 5x5, 4x6, 6x4 (thorough also 3x5 .. 6x6) and long boards 1x12, 12x1 (thorough also 2x10, 10x2,
+1x16, 16x1) with structured tank partitions - rows, columns, single cells, 2x2 blocks, quadrants, nested U shapes,
+nested n shapes, rings, combs with the bar below / above, staircases, a snake cut into pieces of 3 resp. 5 cells, the
+whole board.  U, n, ring and comb tanks have arms, so the two readings differ on them.  Per partition: the clue-free
+board (if it has at most 20000 answers), single clues "whole line" and 0 on the last row / last column, and clue sets
+derived from answers G (every tank filled to a level picked by a fixed formula; any such filling is an answer of the
+clue-free board under reading 0): all h + w counts of G, the counts minus every k-th clue, rows only, columns only,
+last row and last column only, and one clue changed by +1 / -1 (first, last, middle), as is and thinned.
+Oracle for the family: fast_fillings() - the admissible water sets of one tank listed from the rule without trying
+all 2^cells subsets (reading 0: the tank's horizontal runs are filled as a whole and a run needs every run of the tank
+directly below one of its cells; reading 1: one level per tank) - and solve_fast() - tank by tank, a line is cut off
+when it exceeds its clue or cannot reach it any more; selftest() compares both with fillings() / _solve() on the small
+boards.
 """
 
 import itertools
@@ -121,6 +136,222 @@ def fillings(room, reading):
     return out
 
 
+_FAST = {}
+
+
+def fast_fillings(room, reading):
+    """All admissible water sets of one tank (tuple of (y, x)) under a reading, as frozensets, without trying every
+    subset.  Reading "part": water spreads to the left and right neighbour inside the tank, so the maximal horizontal
+    runs of the tank are filled as a whole; a cell is water only if the tank cell directly below it is, so a run can be
+    filled only if every run holding the cell below one of its cells is filled - the fillings are the sets of runs
+    closed under "needs".  Reading "room": one level per tank - the cells of the tank in row t and below, for every
+    row t of the tank, or nothing."""
+    key = (room, reading)
+    if key in _FAST:
+        return _FAST[key]
+    cells = set(room)
+    out = []
+    if reading == "room":
+        out.append(frozenset())
+        for t in sorted(set(y for y, x in room), reverse=True):
+            out.append(frozenset(c for c in room if c[0] >= t))
+    else:
+        runs = []
+        run_of = {}
+        for y, x in sorted(cells):
+            if (y, x - 1) in cells:
+                runs[run_of[(y, x - 1)]].append((y, x))
+                run_of[(y, x)] = run_of[(y, x - 1)]
+            else:
+                run_of[(y, x)] = len(runs)
+                runs.append([(y, x)])
+        needs = [sorted(set(run_of[(y + 1, x)] for y, x in run if (y + 1, x) in cells)) for run in runs]
+        order = sorted(range(len(runs)), key=lambda r: -runs[r][0][0])  # bottom rows first: a run's needs come before it
+
+        def rec(i, chosen):
+            if i == len(order):
+                out.append(frozenset(c for r in chosen for c in runs[r]))
+                return
+            r = order[i]
+            rec(i + 1, chosen)
+            if all(q in chosen for q in needs[r]):
+                rec(i + 1, chosen | {r})
+
+        rec(0, frozenset())
+    _FAST[key] = out
+    return out
+
+
+def solve_fast(p, reading, limit=None):
+    """All water sets obeying the rules and the clues under a reading, as row-major bool tuples: one admissible filling
+    per tank, tank by tank; a branch ends when a clued line already holds more water than its clue or could not reach
+    its clue even if every cell of the tanks still to come were water."""
+    h, w = p["height"], p["width"]
+    rooms = [tuple((y, x) for y, x in b) for b in p["blocks"]]
+    cr, cc = list(p["clue_row"]), list(p["clue_col"])
+    # tanks touching clued lines first (they are the ones that can be cut off)
+    opts = []
+    for room in rooms:
+        fs = []
+        for f in fast_fillings(room, reading):
+            rcount = [0] * h
+            ccount = [0] * w
+            for y, x in f:
+                rcount[y] += 1
+                ccount[x] += 1
+            fs.append((f, rcount, ccount))
+        opts.append(fs)
+    rest_r = [[0] * h for _ in range(len(rooms) + 1)]  # cells per line in tanks i, i+1, ...
+    rest_c = [[0] * w for _ in range(len(rooms) + 1)]
+    for i in range(len(rooms) - 1, -1, -1):
+        rest_r[i] = list(rest_r[i + 1])
+        rest_c[i] = list(rest_c[i + 1])
+        for y, x in rooms[i]:
+            rest_r[i][y] += 1
+            rest_c[i][x] += 1
+    rows = [y for y in range(h) if cr[y] >= 0]
+    cols = [x for x in range(w) if cc[x] >= 0]
+    out = []
+    chosen = []
+
+    def rec(i, rcur, ccur):
+        if i == len(rooms):
+            water = set()
+            for f in chosen:
+                water |= f
+            out.append(tuple((y, x) in water for y in range(h) for x in range(w)))
+            if limit is not None and len(out) > limit:
+                raise OverflowError(len(out))
+            return
+        for f, rc, cc_ in opts[i]:
+            ok = True
+            for y in rows:
+                v = rcur[y] + rc[y]
+                if v > cr[y] or v + rest_r[i + 1][y] < cr[y]:
+                    ok = False
+                    break
+            if ok:
+                for x in cols:
+                    v = ccur[x] + cc_[x]
+                    if v > cc[x] or v + rest_c[i + 1][x] < cc[x]:
+                        ok = False
+                        break
+            if not ok:
+                continue
+            chosen.append(f)
+            rec(i + 1, [a + b for a, b in zip(rcur, rc)], [a + b for a, b in zip(ccur, cc_)])
+            chosen.pop()
+
+    rec(0, [0] * h, [0] * w)
+    return out
+
+
+def structured(h, w):
+    """Named tank partitions of the h x w board (rooms as sorted lists of [y, x], ordered by smallest cell)."""
+    cells = [(y, x) for y in range(h) for x in range(w)]
+    out = []
+
+    def add(name, label):
+        groups = {}
+        for c in cells:
+            groups.setdefault(label(*c), []).append(c)
+        rooms = []
+        for g in groups.values():  # a label class may fall apart: its connected pieces are the tanks
+            for comp in base.components(g):
+                rooms.append(sorted(comp))
+        rooms.sort()
+        part = [[list(c) for c in room] for room in rooms]
+        if all(part != q for _, q in out):
+            out.append((name, part))
+
+    add("whole", lambda y, x: 0)
+    add("rows", lambda y, x: y)
+    add("columns", lambda y, x: x)
+    add("cells", lambda y, x: (y, x))
+    add("blocks-2x2", lambda y, x: (y // 2, x // 2))
+    add("quadrants", lambda y, x: (y >= h // 2, x >= w // 2))
+    add("nested-u", lambda y, x: min(x, w - 1 - x, h - 1 - y))
+    add("nested-n", lambda y, x: min(x, w - 1 - x, y))
+    add("rings", lambda y, x: min(x, w - 1 - x, y, h - 1 - y))
+    add("comb-up", lambda y, x: 0 if (y == h - 1 or x % 2 == 0) else 1 + x)  # bar below, teeth upwards, gaps = own tanks
+    add("comb-down", lambda y, x: 0 if (y == 0 or x % 2 == 0) else 1 + x)  # bar above, teeth downwards
+    add("stairs", lambda y, x: (x + y) // 2)
+    order = []
+    for y in range(h):
+        row = [(y, x) for x in range(w)]
+        if y % 2:
+            row.reverse()
+        order += row
+    pos = {c: i for i, c in enumerate(order)}
+    add("snake-3", lambda y, x: pos[(y, x)] // 3)
+    add("snake-5", lambda y, x: pos[(y, x)] // 5)
+    return out
+
+
+QUICK_PARTS = ("whole", "rows", "columns", "cells", "nested-u", "nested-n", "comb-down", "snake-3")
+
+
+def large_instances(h, w, level):
+    """Problem dicts of the large family of one board."""
+    out = []
+    seen = set()
+    for name, part in structured(h, w):
+        if level == 0 and name not in QUICK_PARTS:
+            continue
+        if name == "cells" and h * w > 16 and min(h, w) > 1:
+            continue  # 0/1 matrices with given line sums: too many on the larger boards
+        rooms = [tuple((y, x) for y, x in b) for b in part]
+        fills = [fast_fillings(room, "part") for room in rooms]
+
+        def emit(clues):
+            key = (name, tuple(clues))
+            if key not in seen:
+                seen.add(key)
+                out.append({"height": h, "width": w, "blocks": part, "clue_row": list(clues[:h]), "clue_col": list(clues[h:]), "family": "large"})
+
+        total = 1
+        for f in fills:
+            total *= len(f)
+        if total <= 20000:
+            emit([-1] * (h + w))
+        # single clues on the far lines: the whole line and nothing
+        for i, v in ((h - 1, w), (h + w - 1, h), (h - 1, 0), (h + w - 1, 0)):
+            if (total <= 20000 and v) or level:
+                c = [-1] * (h + w)
+                c[i] = v
+                emit(c)
+        for s in ((0,) if level == 0 else (0, 1)):
+            water = set()
+            for i, f in enumerate(fills):
+                # level of tank i: a fixed formula; the fillings of a tank are listed bottom-up, index 0 = empty
+                water |= f[(i * 7 + s * 3 + (i + s) // 2 + 1) % len(f)]
+            full = [sum(1 for x in range(w) if (y, x) in water) for y in range(h)] + [sum(1 for y in range(h) if (y, x) in water) for x in range(w)]
+            emit(full)
+            for k in ((2,) if level == 0 else (2, 3)):
+                for o in (0,):
+                    emit([-1 if i % k == o else v for i, v in enumerate(full)])
+            emit([v if i < h else -1 for i, v in enumerate(full)])  # rows only
+            emit([v if i >= h else -1 for i, v in enumerate(full)])  # columns only
+            emit([v if i in (h - 1, h + w - 1) else -1 for i, v in enumerate(full)])  # last row and last column only
+            spots = [0, h + w - 1] if level == 0 else [0, h + w - 1, h - 1, h]
+            for pos in spots:
+                top = w if pos < h else h
+                for d in (1, -1):
+                    if level == 0 and d != (1 if pos == 0 else -1):
+                        continue
+                    v = full[pos] + d
+                    if not 0 <= v <= top:
+                        v = full[pos] - d
+                    if 0 <= v <= top:
+                        c = list(full)
+                        c[pos] = v
+                        if level or pos == 0:
+                            emit(c)
+                        if level or pos != 0:
+                            emit([-1 if (i % 2 != pos % 2) else q for i, q in enumerate(c)])
+    return out
+
+
 class Aquarium(base.Rule):
     name = "aquarium"
 
@@ -128,11 +359,22 @@ class Aquarium(base.Rule):
         boards = [(1, 1), (1, 2), (2, 1), (1, 3), (3, 1), (2, 2), (1, 4), (4, 1), (2, 3), (3, 2)]
         s = [(h, w, r) for h, w in boards for r in range(1, h * w + 1)]
         if tier == "quick":
-            return s + [(3, 3, r) for r in (2, 3, 4)]
+            return s + [(3, 3, r) for r in (2, 3, 4)] + self.large_shapes(0)
         s += [(h, w, r) for h, w in [(3, 3), (1, 5), (5, 1), (2, 4), (4, 2)] for r in range(1, h * w + 1)]
-        return s + [(h, w, r) for h, w in [(3, 4), (4, 3)] for r in (1, 2, 3)]
+        return s + [(h, w, r) for h, w in [(3, 4), (4, 3)] for r in (1, 2, 3)] + self.large_shapes(1)
+
+    def large_shapes(self, level):
+        big = [(4, 4), (5, 5), (4, 6), (6, 4), (1, 12), (12, 1)]
+        if level:
+            big += [(3, 5), (5, 3), (4, 5), (5, 4), (5, 6), (6, 5), (6, 6), (2, 10), (10, 2), (1, 16), (16, 1)]
+        return [("large", h, w, level) for h, w in big]
 
     def instances(self, shape, cap):
+        if shape[0] == "large":
+            _, h, w, level = shape
+            for p in large_instances(h, w, level):
+                yield p
+            return
         h, w, r = shape
         parts = [p for p in room_partitions(h, w) if len(p) == r]
         if not parts:
@@ -178,8 +420,12 @@ class Aquarium(base.Rule):
         return out
 
     def readings(self, p):
-        part = self._solve(p, "part")
-        room = self._solve(p, "room")
+        if p.get("family") == "large":
+            part = solve_fast(p, "part")
+            room = solve_fast(p, "room")
+        else:
+            part = self._solve(p, "part")
+            room = self._solve(p, "room")
         if sorted(part) == sorted(room):
             return [part]
         return [part, room]
@@ -199,6 +445,39 @@ def selftest():
     assert len(fillings(n, "room")) == 3 and len(fillings(n, "part")) == 5
     col = ((0, 0), (1, 0), (2, 0))
     assert len(fillings(col, "room")) == 4 and len(fillings(col, "part")) == 4
+    ring = tuple((y, x) for y in range(3) for x in range(3) if (y, x) != (1, 1))
+    assert len(fast_fillings(ring, "part")) == 6 and len(fast_fillings(ring, "room")) == 4
+    # fast_fillings() against the subset-trying fillings(): every tank of every partition of the small boards and every
+    # tank of the structured partitions of 4x4 / 3x5 / 5x3 (tanks of up to 16 cells)
+    tanks = set()
+    for h, w in ((1, 4), (4, 1), (2, 3), (3, 2), (3, 3), (2, 4), (4, 2)):
+        for part in room_partitions(h, w):
+            for b in part:
+                tanks.add(tuple((y, x) for y, x in b))
+    for h, w in ((4, 4), (3, 5), (5, 3)):
+        for name, part in structured(h, w):
+            for b in part:
+                tanks.add(tuple((y, x) for y, x in b))
+    for tank in tanks:
+        for reading in ("part", "room"):
+            assert sorted(map(sorted, fast_fillings(tank, reading))) == sorted(map(sorted, fillings(tank, reading))), (tank, reading)
+    # every structured partition is a partition into connected tanks
+    for h, w in ((4, 4), (5, 5), (4, 6), (6, 4), (1, 12), (12, 1), (2, 10), (3, 5)):
+        for name, part in structured(h, w):
+            assert sorted(tuple(c) for b in part for c in b) == [(y, x) for y in range(h) for x in range(w)], name
+            assert all(base.cells_connected([tuple(c) for c in b]) for b in part), name
+    # solve_fast() against _solve(): all instances of the small ladder (quick cap) and the large family on 3x3 / 2x4 / 4x2 / 3x4
+    r = Aquarium()
+    probs = []
+    for shape in r.shapes("quick"):
+        if shape[0] != "large":
+            probs += list(r.instances(shape, 150))
+    for h, w in ((3, 3), (2, 4), (4, 2), (3, 4), (4, 3)):
+        probs += large_instances(h, w, 1)
+    assert len(probs) > 3000
+    for p in probs:
+        for reading in ("part", "room"):
+            assert sorted(solve_fast(p, reading)) == sorted(r._solve(p, reading)), (p, reading)
 
 
 RULE = Aquarium()
